@@ -82,7 +82,8 @@ def check(ctx):
     loops = [s for s in walk_no_nested(fn) if isinstance(s, ast.For)]
     main = None
     for lp in loops:
-        if isinstance(lp.target, ast.Tuple) and len(lp.target.elts) == 2 and ast.unparse(lp.iter).endswith(".items()"):
+        if isinstance(lp.target, ast.Tuple) and len(lp.target.elts) == 2 and ast.unparse(lp.iter).endswith(".items()") \
+                and not any(o is not lp and any(x is lp for x in ast.walk(o)) for o in loops):
             main = lp
     if main is None:
         ctx.undecided("R-FLOW/config", construct, where, "no `for key, value in config.items()` loop", key="loop")
@@ -169,15 +170,38 @@ def check(ctx):
 
     # -- 2 validation dominance --------------------------------------------------------
     ctx.clause = "2-validation-dominance"
-    first = fn.body[0] if fn.body and not isinstance(fn.body[0], ast.Expr) else (fn.body[1] if len(fn.body) > 1 else None)
+    # before the main loop: a key outside config_mask raises InvalidConfigKey.  Two spellings are recognised: a scan loop over
+    # the keys whose body raises when `key in config_mask` is false (decided on terms), or a comprehension collecting the keys
+    # that are not in config_mask followed by a raise when that collection is non-empty
+    from ..astutil import guards as _guards
+    cparam = fn.args.args[0].arg if fn.args.args else "config"
+    srcs = (cparam, f"{cparam}.keys()", f"list({cparam})", f"list({cparam}.keys())")
     ok = False
-    if isinstance(first, ast.For) and first.lineno < main.lineno:
-        kv = first.target.id if isinstance(first.target, ast.Name) else None
-        for s in first.body:
-            if isinstance(s, ast.If) and ast.unparse(s.test) == f"{kv} not in config_mask" and _raises_lib(s.body, {"InvalidConfigKey"}):
-                ok = True
-        src_it = ast.unparse(first.iter)
-        ok = ok and (src_it.endswith(".keys()") or src_it in ("config",))
+    pre_loops = [lp for lp in loops if lp is not main and lp.lineno < main.lineno and isinstance(lp.target, ast.Name)
+                 and ast.unparse(lp.iter) in srcs and not any(o is not lp and any(x is lp for x in ast.walk(o)) for o in loops)]
+    for lp in pre_loops:
+        K_ = sym.S(lp.target.id)
+        rej = acc = 0
+        for p_ in sym.Interp(fold=lambda e: repo.fold(m, e)).loop_body(lp, {lp.target.id: K_}):
+            inmask = [tv for c, tv in p_.conds if isinstance(c, tuple) and c[0] == "cmp" and c[1] == "In" and c[2] == K_]
+            if inmask == [False]:
+                if p_.term == "raise" and "InvalidConfigKey" in sym.show(p_.value):
+                    rej += 1
+                else:
+                    acc += 1
+        ok = ok or (rej > 0 and acc == 0)
+    g_ = _guards(fn)
+    for n in walk_no_nested(fn):
+        if isinstance(n, ast.Assign) and len(n.targets) == 1 and isinstance(n.targets[0], ast.Name) and n.lineno < main.lineno \
+                and isinstance(n.value, (ast.ListComp, ast.SetComp)) and len(n.value.generators) == 1:
+            gen = n.value.generators[0]
+            if ast.unparse(gen.iter) in srcs and isinstance(gen.target, ast.Name) and \
+                    [ast.unparse(i) for i in gen.ifs] == [f"{gen.target.id} not in config_mask"] and ast.unparse(n.value.elt) == gen.target.id:
+                coll = n.targets[0].id
+                for r_ in walk_no_nested(fn):
+                    if isinstance(r_, ast.Raise) and r_.lineno < main.lineno and "InvalidConfigKey" in ast.unparse(r_):
+                        if any(isinstance(t, ast.Name) and t.id == coll and v is True for t, v in g_.get(id(r_), [])):
+                            ok = True
     ctx.decide(ok, "R-DOM/unknown-key", construct, where, "unknown keys raise InvalidConfigKey before any value is read",
                "unknown configuration keys are not rejected with InvalidConfigKey before the values are processed",
                key="unknown_key")
@@ -316,13 +340,17 @@ def check(ctx):
                f"{[s[0] for s in stores]}", key="defaults")
     if ok:
         # guarded by absence of the key
-        par = None
-        for n in walk_no_nested(ini):
-            if isinstance(n, ast.If) and stores[0][1] in n.body:
-                par = n
-        okg = par is not None and ast.unparse(par.test) in ("not defaults.get('TRANSPORT_TYPE')",
-                                                            "'TRANSPORT_TYPE' not in defaults",
-                                                            "defaults.get('TRANSPORT_TYPE') is None")
+        # the default is stored only when the given configuration has no (truthy) TRANSPORT_TYPE: guard of the store, polarity
+        # normalised, bool(...) wrappers ignored
+        from ..astutil import guards as _guards
+        conds = _guards(ini).get(id(stores[0][1]), [])
+
+        def unwrap(t):
+            while isinstance(t, ast.Call) and isinstance(t.func, ast.Name) and t.func.id == "bool" and len(t.args) == 1:
+                t = t.args[0]
+            return ast.unparse(t)
+        okg = any((unwrap(t), v) in (("defaults.get('TRANSPORT_TYPE')", False), ("'TRANSPORT_TYPE' in defaults", False),
+                                     ("defaults.get('TRANSPORT_TYPE') is None", True)) for t, v in conds)
         ctx.decide(okg, "R-DOM/config-defaults", f"{ci.qual}.__init__", ci.where(ini),
                    "default applied only when TRANSPORT_TYPE is absent",
                    "the TRANSPORT_TYPE default overwrites a configured value", key="defaults_guard")
@@ -470,7 +498,7 @@ def _yaml(ctx, repo, m):
                 ok = v == expected(src)
                 bad = f"{K} is `{txt}`, expected {src} unchanged"
             ctx.decide(ok, "R-TABLE/yaml", construct, f"{m.rel}:{lp.lineno}", f"{K} <- {txt[:60]}", bad, key=f"yaml:{K}")
-    rets = [ast.unparse(n.value) for n in ast.walk(fn) if isinstance(n, ast.Return) and n.value is not None]
+    rets = [ast.unparse(n.value) for n in walk_no_nested(fn) if isinstance(n, ast.Return) and n.value is not None]
     ctx.decide(len(targets) == 1 and rets == sorted(targets), "R-FLOW/yaml-return", construct, where, f"returns the list `{sorted(targets)}`",
                f"returns {rets}, not the list the entries are appended to ({sorted(targets)})", key="return", nontrivial=False)
     # application constants resolved by name through the variables dictionary (inner loop, on terms)
